@@ -112,6 +112,11 @@ def op_pick(w, ins):
         if ins.get('superset'):
             care_k |= sup
         care_arg = {w.names[k] for k in care_k}
+        kind = ins.get('cont', 0)
+        if kind == 1:
+            care_arg = frozenset(care_arg)
+        elif kind == 2:
+            care_arg = dict.fromkeys(sorted(care_arg, reverse=True)).keys()   # a Set view
         exact = None
     it = ins.get('iter', True)
     if not it:
@@ -711,7 +716,8 @@ def gen_count(w, r, cfg):
 def gen_pick(w, r, cfg):
     x = r.random()
     care = None if x < 0.35 else r.randrange(1 << w.nv)
-    return dict(op='pick', a=_ri(r), care=care, superset=r.randrange(2), iter=r.random() < 0.7, how=r.randrange(2))
+    return dict(op='pick', a=_ri(r), care=care, superset=r.randrange(2), iter=r.random() < 0.7, how=r.randrange(2),
+                cont=r.choice([0, 0, 1, 2]))
 
 
 def gen_copy(w, r, cfg):
